@@ -105,7 +105,12 @@ func vxC07NoClient(_ context.Context, _ *slog.Logger, _, _ string) *Client { ret
 // a three-element folding orbit (k: Kelvin sign, s: long s), the first and
 // last letters and their neighbours '@' '[' '`' '{' (which differ from each
 // other in the case bit only, like letters), a digit and the dot.
-const vxC07Sigma = "aAkKsSzZ1.@[`{"
+const (
+	vxC07SigmaFull  = "aAkKsSzZ1.@[`{"
+	vxC07SigmaQuick = "aKsZ1.@{"
+)
+
+var vxC07Sigma = vxC07SigmaQuick
 
 func vxC07LowerASCII(c byte) byte {
 	if 'A' <= c && c <= 'Z' {
@@ -154,8 +159,10 @@ func vxC07Strings(n int) (res []string) {
 // which must never drop an entry that the full match selects.
 func vxC07Term() {
 	maxField, maxTerm := 2, 2
+	vxC07Sigma = vxC07SigmaQuick
 	if vx.Thorough() {
 		maxField = 3
+		vxC07Sigma = vxC07SigmaFull
 	}
 	which := vx.Choice("field", 4)
 	strict := vx.Choice("quoted", 2) == 1
